@@ -384,6 +384,34 @@ func TestCheck(t *testing.T) {
 		})
 	})
 
+	r.Phase("W3: a numeral parsed, then N distinct other numerals (N = 1..200000 on a ladder around powers of two), then the same numeral again", func() {
+		r.Serial(func(w *vkit.W) {
+			filler := uint64(0)
+			for li, n := range []int{1, 2, 3, 31, 32, 33, 63, 64, 65, 127, 128, 129, 255, 256, 257, 511, 512, 513, 1023, 1024, 1025, 2047, 2048, 2049, 4096, 8192, 65536, 200000} {
+				x := ref.RomanNumeral(uint64(3000+li*37), li%128)
+				y := strings.ToLower(ref.RomanNumeral(uint64(88+n%900), 0))
+				for _, rule := range rules[:2] {
+					judge(Case{Text: vkit.B(x), Rule: rule}, w)
+					judge(Case{Text: vkit.B(y), Rule: rule}, w)
+				}
+				for k := 0; k < n; k++ {
+					filler++
+					t := ref.RomanNumeral(filler%100000, int(filler%128))
+					if filler%2 == 0 {
+						_, _ = roman.DefaultParser(t, 0)
+					} else {
+						_ = roman.Valid([]byte(t), 0)
+					}
+				}
+				for _, rule := range rules[:2] {
+					judge(Case{Text: vkit.B(x), Rule: rule}, w)
+					judge(Case{Text: vkit.B(y), Rule: rule}, w)
+				}
+				w.EvalRandom(vkit.Hash64("W3", x), true)
+			}
+		})
+	})
+
 	// Phase W: texts that programs conventionally treat specially ("null", "nil", "", "0", "N", ...) through every entry point.
 	r.Phase(fmt.Sprintf("W: %d conventional special texts (null, nil, none, 0, nulla, ...) x rules x limits through every entry point", len(ref.ConventionalTexts)), func() {
 		for _, lim := range []int{0, -1, 4} {
